@@ -64,6 +64,7 @@ def main():
     # searched plus the line of the child that scored; mate / stalemate only without legal moves; reported lines are root lines)
     nv, ndrift, nstat = nodes.node_phase(chk, ("C08",), mates, draws, roots + walkp,
                                          n_mates=40 if q else 400, n_draws=20 if q else 200, n_pool=20 if q else 200)
+    nstat.pop("dirty", None)
     for w, what, det, ef in nv:
         chk.violation(w, what, det, replay={"kind": "node-trace", "trace": ef, "line": det["report"].get("at"),
                                             "how": "harness `nodes <jobs> <out>` on the session of the named root; Trace_Nodes.tla on <out>"})
